@@ -1,4 +1,32 @@
-use std::ops::Range;
+use pct_str::PctStr;
+use std::{
+	cmp::Ordering,
+	hash::{Hash, Hasher},
+	ops::Range,
+};
+
+/// Compares two percent-encoded strings by their decoded octets.
+///
+/// Unlike the comparison provided by `PctStr`, this does not assume that the
+/// decoded octets form a valid UTF-8 string (`%FF` is a valid path segment).
+#[inline]
+pub fn pct_eq(a: &PctStr, b: &PctStr) -> bool {
+	a.bytes().eq(b.bytes())
+}
+
+/// Orders two percent-encoded strings by their decoded octets.
+#[inline]
+pub fn pct_cmp(a: &PctStr, b: &PctStr) -> Ordering {
+	a.bytes().cmp(b.bytes())
+}
+
+/// Hashes the decoded octets of a percent-encoded string.
+#[inline]
+pub fn pct_hash<H: Hasher>(a: &PctStr, state: &mut H) {
+	for b in a.bytes() {
+		b.hash(state)
+	}
+}
 
 pub fn allocate_range(buffer: &mut Vec<u8>, range: Range<usize>, len: usize) {
 	let range_len = range.end - range.start;
